@@ -211,7 +211,7 @@ impl Prop for C19 {
     }
     fn rule(&self) -> &'static str {
         "Sequences of 2-7 generated sources assembled on one thread with lace::reset_state() between them: valid programs; failing in the lexer (at start / end), in the parser after labels were recorded, at backpatch (undefined label), at emission (label out of reach), \
-         on a duplicate label; the previous source repeated; plus directed sequences whose second source records 300 .. 60,000 labels (valid, failing at backpatch, failing on a duplicate) followed by small sources that re-define and that only reference those names; all drawing label names from the same pool slice so that consecutive sources share names; both feature settings. Oracle: every assembly of the sequence equals (image words, origin, breakpoints, statement spans, or rendered diagnostic + spans) \
+         on a duplicate label; the previous source repeated; plus directed sequences whose second source records 300 .. 60,000 labels (valid, failing at backpatch, failing on a duplicate) followed by small sources that re-define and that only reference those names; and a failing source whose undefined label has several case-differing siblings among its own labels, after predecessors of 0..1000 labels; all drawing label names from the same pool slice so that consecutive sources share names; both feature settings. Oracle: every assembly of the sequence equals (image words, origin, breakpoints, statement spans, or rendered diagnostic + spans) \
          the assembly of the same text on a fresh thread. Non-trivial: consecutive sources share >= 1 label name and the earlier one failed after recording it or defined it at a different word. Distinct = hash(sequence, flag)."
     }
     fn assumptions(&self) -> Vec<String> {
@@ -240,7 +240,33 @@ impl Prop for C19 {
         // large predecessors: a source that records very many labels (so that whatever holds them
         // has grown), valid or failing after recording them, followed by small sources that define
         // and reference the same names
+        // a failing source whose diagnostic could name one of several of its own labels (labels that
+        // differ only in letter case from the undefined one), after predecessors of growing size:
+        // whatever order a container happens to iterate in must not show
         let mut k = 0u64;
+        for npred in [0usize, 1, 3, 4, 7, 8, 15, 16, 31, 32, 63, 64, 200, 1000] {
+            k += 1;
+            if !ctx.mine(k) {
+                continue;
+            }
+            let mut pred = String::new();
+            for i in 0..npred {
+                pred.push_str(&format!("p{i} .fill #{i}\n"));
+            }
+            pred.push_str("halt\n");
+            let siblings = "Loop add r0 r0 #1\nLOOP add r1 r1 #1\nlOOp add r2 r2 #1\nlooP add r3 r3 #1\nFoo .fill x1\nfOO .fill x2\nbrp loop\nld r0 foo\nhalt\n".to_string();
+            let case = Case {
+                sources: vec![pred.clone(), siblings.clone(), pred, siblings],
+                stack: false,
+                kinds: vec!["valid".into(), "backpatch-failure".into(), "valid".into(), "backpatch-failure".into()],
+                nontrivial: true,
+            };
+            judge_one(ctx, rep, &case, &mut |c| {
+                let mut o = judge_case(c);
+                o.label("kind-undefined-label-with-case-siblings");
+                o
+            });
+        }
         for nlabels in [300usize, 5_000, 20_000, 30_000, 45_000, 60_000] {
             for variant in 0..3 {
                 k += 1;
